@@ -69,7 +69,7 @@ CLAIMED = {
     "C02": dict(
         text='Lean 4 theorems: one_walk (for every well-formed tree, runtime state, operation, codec and key source the result is either pre-empted by something state/value dependent, or exactly the outcome of the type-level traversal of the erased type); operations_agree (any two operations/codecs/states of one type agree unless pre-empted); structural_depths (Ok/TooShort/TooLong carry the number of keys consumed, NotFound one more); indices_in_range; the per-node step order as equations. Every run compares serialize/deserialize/ref_any/mut_any outcomes on every instance x node path x malformed key alphabet x key representation with the model and the independent Python top-down interpreter.'
              " source_bookkeeping_is_model and source_containers_are_model: Traversal::increment/depth, Error::increment_result, KeyLookup::lookup/len, Node::try_from and TreeKey::traverse_by_key of every built-in container (tuples 1-8, arrays, Result, Bound, Range*), as TRANSLATED from error.rs / key.rs / node.rs / impls.rs on every run, equal the model's definitions (the transparent wrappers are checked to be plain delegations)."
-             " source_leaves_are_model: the by-key functions of Leaf / StrLeaf / Deny as TRANSLATED from leaf.rs equal the model's walk at a leaf (surplus keys before the value, Inner(0), value changes exactly on success). source_derive_is_model: for every struct/enum of the corpus the OUTPUT of #[derive(TreeKey)] (the macro crate's own source, run by /verif/expander on every run) is translated and proved equal to the model's traversal at the node the declaration denotes (one generated theorem per type); every generated value-level arm (place, accessor, validator, denial, variant) is compared with the definition.",
+             " source_leaves_are_model: the by-key functions of Leaf / StrLeaf / Deny as TRANSLATED from leaf.rs equal the model's walk at a leaf (surplus keys before the value, Inner(0), value changes exactly on success). source_derive_is_model: for every struct/enum of the corpus the OUTPUT of #[derive(TreeKey)] (the macro crate's own source, run by /verif/expander on every run) is translated and proved equal to the model's traversal at the node the declaration denotes (one generated theorem per type); every generated value-level arm (place, accessor, validator, denial, variant) is compared with the definition. source_wrappers_are_model: the value-level impls of Option/Box/Cow/Cell/RefCell/Rc/Arc/Weak/Mutex/RwLock and their reference forms, translated from impls.rs on every run into an accessor table, equal the model's gateErr in every runtime state of the wrapper.",
         note='The depth of pre-empting errors (Absent/Access/Invalid) is given by the step equations and the run, not by a global theorem.',
         tech='Lean 4 proof (mutual induction relating the value-level walk to the type-level traversal) + three-way differential run'),
     "C05": dict(
